@@ -23,6 +23,9 @@ type HistCfg struct {
 	NoMutations        bool // no UPDATE / DELETE
 	WhereNullable      bool
 	NoWide             bool // never draw tables of 9-129 columns (checks whose caches are too small for their CREATE TABLE)
+	// ReUse: now and then a USE of the database the history runs in ("d1", see props.DBName), spelled as it is or
+	// in another letter case - database names are case-insensitive, the statement selects what is selected
+	ReUse bool
 }
 
 // StrBudget is the largest string length such that a row holding strings of
@@ -357,6 +360,10 @@ func History(rt *rapid.T, cfg HistCfg, db *model.DB) []model.Stmt {
 func NextStmt(rt *rapid.T, cfg HistCfg, db *model.DB) (model.Stmt, bool) {
 	names := db.TableNames()
 	kind := "create"
+	if cfg.ReUse && len(names) > 0 && rapid.IntRange(0, 24).Draw(rt, "reuse") == 0 {
+		st := NewStyle(rt)
+		return model.Stmt{Kind: "use", SQL: st.KW("USE") + st.SP() + rapid.SampledFrom([]string{"d1", "D1", "D1", "d1"}).Draw(rt, "reuse_name") + st.End()}, true
+	}
 	if len(names) > 0 {
 		w := []string{"insert", "insert", "insert", "insert", "insert", "update", "update", "delete", "delete"}
 		if cfg.NoMutations {
